@@ -36,9 +36,9 @@ Scope.  Exhaustive:
     occurs next to every kind of size-2/3/4 hyperedge).  Because a call costs ~0.45 s whatever the input, FOUR of these
     are evaluated in one call as a disjoint union (member i on nodes 4i..4i+3; 58 unions in quick, 512 in thorough); the
     oracle is the plain census of the 16-node union (all 1820 node subsets), so nothing is assumed about unions - but
-    opposite errors in two members of a union could cancel.  Thorough therefore also runs, each on its own, those
-    with at most 3 hyperedges of size >= 2 (one singleton subset) and those with at most 2 with EVERY subset of the
-    singleton hyperedges.
+    opposite errors in two members of a union could cancel.  Thorough therefore also runs those with at most 3
+    hyperedges of size >= 2 (one singleton subset) each on its own, and adds those with at most 2 hyperedges of size >= 2
+    with EVERY subset of the singleton hyperedges (again as unions of four).
   * directed, order 3: all 4096 directed hypergraphs on nodes 0..2 (12 possible hyperedges with disjoint non-empty
     source/target) under all 6 relabellings; orders 3 and 4: all directed hypergraphs on nodes 0..3 (50 possible
     hyperedges) with at most 2 hyperedges under all 24 relabellings; thorough adds all those with exactly 3
@@ -61,10 +61,10 @@ directed hypergraph.  Budgets are counts, quick / thorough:
     directed and 60 / 600 directed with one-node hyperedges, each with ALL of the variants above (directed ones for both
     orders);
   order 4 undirected (a call costs ~0.45 s because the implementation rebuilds its 171-class table three times per
-    call; ~750 / ~12000 calls in total): census of 40 / 1000 random hypergraphs and of 12 / 150 "size-one" ones; all 119
+    call; ~570 / ~9700 calls in total): census of 40 / 1000 random hypergraphs and of 12 / 100 "size-one" ones; all 119
     non-identity permutations of 1 / 6 random 5-node hypergraphs and 10 / 30 random permutations of 3 / 30 on 6..7
     nodes; 10 insertion orders of 3 / 80; larger hyperedges added to 6 / 100; 5 relabellings and 5 insertion orders of
-    2 / 20 "size-one" ones.
+    2 / 12 "size-one" ones.
 A few degenerate inputs (empty, isolated nodes only, singleton hyperedges only, fewer nodes than the order, singleton
 hyperedges on the nodes of a size-3 + size-2 / star / size-4 pattern, one-node directed hyperedges only and next to a
 cycle / a 3-node hyperedge) are run for both functions and both orders.
@@ -873,17 +873,16 @@ def _plan(ctx):
             heavy.append(dict(kind="u", order=4, edges=members[-1], isolated=[], weighted=False, census=True))
     for ch in _chunks(members, 4):
         heavy.append(dict(kind="u", order=4, edges=union(ch), isolated=[], weighted=False, census=True))
-    if not q:  # ... thorough: at most 2 hyperedges of size >= 2 with EVERY subset of the singleton hyperedges, on their own
-        for idx in _index_sets(len(p4), 2):
-            for sng in range(1, 16):
-                if (idx, sng) not in done:
-                    heavy.append(dict(kind="u", order=4, edges=with_singles(idx, sng), isolated=[], weighted=False, census=True))
+    if not q:  # ... thorough: at most 2 hyperedges of size >= 2 with EVERY subset of the singleton hyperedges (unions of 4)
+        members = [with_singles(idx, sng) for idx in _index_sets(len(p4), 2) for sng in range(1, 16) if (idx, sng) not in done]
+        for ch in _chunks(members, 4):
+            heavy.append(dict(kind="u", order=4, edges=union(ch), isolated=[], weighted=False, census=True))
     for _ in range(40 if q else 1000):  # random census (sizes 1..6, isolated, weighted, odd labels)
         g = _random_u(rng, 4, 7)
         heavy.append(dict(kind="u", order=4, census=True, **g))
-    for _ in range(12 if q else 150):  # random census, singleton hyperedges on nodes of size-2/3 hyperedges
+    for _ in range(12 if q else 100):  # random census, singleton hyperedges on nodes of size-2/3 hyperedges
         heavy.append(dict(kind="u", order=4, census=True, **_random_u_single(rng1, 4, 7)))
-    for _ in range(2 if q else 20):  # the same under 5 relabellings and 5 insertion orders
+    for _ in range(2 if q else 12):  # the same under 5 relabellings and 5 insertion orders
         g = _random_u_single(rng1, 4, 7)
         nodes = sorted(set(v for e in g["edges"] for v in e))
         heavy.append(dict(kind="u", order=4, census=True, maps=_random_maps(rng1, nodes, 5),
@@ -1086,7 +1085,7 @@ def run(ctx):
     ctx.exhaustive_parts.append("compute_motifs order 4: " + ("all hypergraphs on 4 nodes with at most 3 hyperedges"
                                 if ctx.quick else "all 2048 hypergraphs on 4 nodes; all on 5 nodes with at most 3 hyperedges") +
                                 ("" if ctx.quick else "; all on 4 nodes with at most 2 hyperedges of size >= 2 x all 16 "
-                                                      "subsets of the singleton hyperedges"))
+                                                      "subsets of the singleton hyperedges (four per call, as a disjoint union)"))
     ctx.exhaustive_parts.append("compute_directed_motifs order 3: all 4096 directed hypergraphs on 3 nodes x 6 relabellings; "
                                 "orders 3, 4: all on 4 nodes with at most 2 hyperedges x 24 relabellings" +
                                 ("" if ctx.quick else "; all on 4 nodes with 3 hyperedges x 3 generating transpositions"))
